@@ -16,6 +16,14 @@ structure TotalCmp (cmp : K → K → Int) : Prop where
   gt_iff : ∀ a b, 0 < cmp a b ↔ cmp b a < 0
   trans : ∀ a b c, cmp a b < 0 → cmp b c < 0 → cmp a c < 0
 
+/-- The comparator laws of a weak order (total preorder): distinct keys may compare equal
+(case-insensitive strings, compare by a projection).  The lists treat equivalent keys as the
+same binding. -/
+structure WeakCmp (cmp : K → K → Int) : Prop where
+  refl : ∀ a, cmp a a = 0
+  gt_iff : ∀ a b, 0 < cmp a b ↔ cmp b a < 0
+  le_trans : ∀ a b c, cmp a b ≤ 0 → cmp b c ≤ 0 → cmp a c ≤ 0
+
 section
 variable (cmp : K → K → Int)
 
@@ -34,6 +42,9 @@ def lastOr : List K → Option K → Option K
 /-- The predecessor node of `key` on a chain (`none` = head). -/
 def pred (key : K) (l : List K) : Option K := lastOr (lo cmp key l) none
 
+/-- The node of a chain that compares equal to `key` (what the walk hits). -/
+def findEq (key : K) (l : List K) : Option K := l.find? (fun n => cmp n key == 0)
+
 /-- Chain after splicing `key` in. -/
 def ins (key : K) (l : List K) : List K := lo cmp key l ++ key :: ge cmp key l
 /-- Chain after unsplicing `key`. -/
@@ -45,27 +56,96 @@ variable {cmp : K → K → Int}
 theorem TotalCmp.irrefl (h : TotalCmp cmp) (a : K) : ¬ cmp a a < 0 := by
   have := (h.eq_iff a a).mpr rfl; omega
 
-theorem TotalCmp.asymm (h : TotalCmp cmp) {a b : K} (hab : cmp a b < 0) : ¬ cmp b a < 0 := by
+/-! ### consequences of the weak-order laws -/
+
+theorem WeakCmp.irrefl (h : WeakCmp cmp) (a : K) : ¬ cmp a a < 0 := by
+  have := h.refl a; omega
+
+theorem WeakCmp.le_of_eq (h : WeakCmp cmp) {a b : K} (hab : cmp a b = 0) : cmp b a ≤ 0 := by
+  rcases (by omega : 0 < (cmp b a) ∨ 0 ≥ (cmp b a)) with h1 | h1
+  · have := (h.gt_iff b a).mp h1; omega
+  · exact h1
+
+theorem WeakCmp.eq_symm (h : WeakCmp cmp) {a b : K} (hab : cmp a b = 0) : cmp b a = 0 := by
+  have h1 := h.le_of_eq hab
+  rcases (by omega : (cmp b a) < 0 ∨ (cmp b a) ≥ 0) with h2 | h2
+  · have := (h.gt_iff a b).mpr h2; omega
+  · omega
+
+theorem WeakCmp.lt_of_lt_of_le (h : WeakCmp cmp) {a b c : K} (h1 : cmp a b < 0) (h2 : cmp b c ≤ 0) :
+    cmp a c < 0 := by
+  have h3 := h.le_trans a b c (by omega) h2
+  rcases (by omega : (cmp a c) < 0 ∨ (cmp a c) ≥ 0) with h4 | h4
+  · exact h4
+  · have h5 : cmp a c = 0 := by omega
+    have h6 := h.le_trans b c a h2 (h.le_of_eq h5)
+    have h7 := (h.gt_iff b a).mpr h1
+    omega
+
+theorem WeakCmp.lt_of_le_of_lt (h : WeakCmp cmp) {a b c : K} (h1 : cmp a b ≤ 0) (h2 : cmp b c < 0) :
+    cmp a c < 0 := by
+  have h3 := h.le_trans a b c h1 (by omega)
+  rcases (by omega : (cmp a c) < 0 ∨ (cmp a c) ≥ 0) with h4 | h4
+  · exact h4
+  · have h5 : cmp a c = 0 := by omega
+    have h6 := h.le_trans c a b (h.le_of_eq h5) h1
+    have h7 := (h.gt_iff c b).mpr h2
+    omega
+
+/-- Transitivity of the strict part. -/
+theorem WeakCmp.trans (h : WeakCmp cmp) (a b c : K) (h1 : cmp a b < 0) (h2 : cmp b c < 0) : cmp a c < 0 :=
+  h.lt_of_lt_of_le h1 (by omega)
+
+theorem WeakCmp.asymm (h : WeakCmp cmp) {a b : K} (hab : cmp a b < 0) : ¬ cmp b a < 0 := by
   intro hba; exact h.irrefl a (h.trans _ _ _ hab hba)
 
-theorem TotalCmp.ne_of_lt (h : TotalCmp cmp) {a b : K} (hab : cmp a b < 0) : a ≠ b := by
+theorem WeakCmp.ne_of_lt (h : WeakCmp cmp) {a b : K} (hab : cmp a b < 0) : a ≠ b := by
   intro e; subst e; exact h.irrefl a hab
 
-theorem TotalCmp.tri (h : TotalCmp cmp) (a b : K) : cmp a b < 0 ∨ a = b ∨ cmp b a < 0 := by
+theorem WeakCmp.tri (h : WeakCmp cmp) (a b : K) : cmp a b < 0 ∨ cmp a b = 0 ∨ cmp b a < 0 := by
   rcases Int.lt_trichotomy (cmp a b) 0 with h1 | h1 | h1
   · exact Or.inl h1
-  · exact Or.inr (Or.inl ((h.eq_iff a b).mp h1))
+  · exact Or.inr (Or.inl h1)
   · exact Or.inr (Or.inr ((h.gt_iff a b).mp h1))
 
-theorem TotalCmp.not_lt (h : TotalCmp cmp) {a b : K} : ¬ cmp a b < 0 ↔ (a = b ∨ cmp b a < 0) := by
+theorem WeakCmp.not_lt (h : WeakCmp cmp) {a b : K} : ¬ cmp a b < 0 ↔ (cmp a b = 0 ∨ cmp b a < 0) := by
   constructor
   · intro hn; rcases h.tri a b with h1 | h1 | h1
     · exact absurd h1 hn
     · exact Or.inl h1
     · exact Or.inr h1
-  · rintro (rfl | h1)
-    · exact h.irrefl a
+  · rintro (h1 | h1)
+    · omega
     · exact h.asymm h1
+
+/-- Equivalent keys are below the same keys. -/
+theorem WeakCmp.lt_congr_left (h : WeakCmp cmp) {a b : K} (hab : cmp a b = 0) (c : K) :
+    cmp a c < 0 ↔ cmp b c < 0 :=
+  ⟨fun h1 => h.lt_of_le_of_lt (h.le_of_eq hab) h1, fun h1 => h.lt_of_le_of_lt (by omega) h1⟩
+
+/-- Equivalent keys are above the same keys. -/
+theorem WeakCmp.lt_congr_right (h : WeakCmp cmp) {a b : K} (hab : cmp a b = 0) (c : K) :
+    cmp c a < 0 ↔ cmp c b < 0 :=
+  ⟨fun h1 => h.lt_of_lt_of_le h1 (by omega), fun h1 => h.lt_of_lt_of_le h1 (h.le_of_eq hab)⟩
+
+theorem WeakCmp.eq_trans (h : WeakCmp cmp) {a b c : K} (h1 : cmp a b = 0) (h2 : cmp b c = 0) : cmp a c = 0 := by
+  have h3 := h.le_trans a b c (by omega) (by omega)
+  have h4 := h.le_trans c b a (h.le_of_eq h2) (h.le_of_eq h1)
+  rcases (by omega : (cmp a c) < 0 ∨ (cmp a c) ≥ 0) with h5 | h5
+  · have := (h.gt_iff c a).mpr h5; omega
+  · omega
+
+/-- A total-order comparator is in particular a weak-order comparator. -/
+theorem TotalCmp.toWeak (h : TotalCmp cmp) : WeakCmp cmp := by
+  refine ⟨fun a => (h.eq_iff a a).mpr rfl, h.gt_iff, ?_⟩
+  intro a b c h1 h2
+  rcases (by omega : (cmp a b) < 0 ∨ (cmp a b) ≥ 0) with h3 | h3
+  · rcases (by omega : (cmp b c) < 0 ∨ (cmp b c) ≥ 0) with h4 | h4
+    · have := h.trans a b c h3 h4; omega
+    · have : b = c := (h.eq_iff b c).mp (by omega)
+      subst this; exact h1
+  · have : a = b := (h.eq_iff a b).mp (by omega)
+    subst this; exact h2
 
 theorem Sorted.tail {x : K} {xs : List K} (h : Sorted cmp (x :: xs)) : Sorted cmp xs :=
   (List.pairwise_cons.mp h).2
@@ -81,7 +161,7 @@ theorem Sorted.filter {l : List K} (h : Sorted cmp l) (p : K → Bool) : Sorted 
 
 /-! ### the split of a sorted chain around a key -/
 
-theorem lo_eq_nil_of_head_ge (hc : TotalCmp cmp) {key x : K} {xs : List K}
+theorem lo_eq_nil_of_head_ge (hc : WeakCmp cmp) {key x : K} {xs : List K}
     (hs : Sorted cmp (x :: xs)) (hx : ¬ cmp x key < 0) : lo cmp key (x :: xs) = [] := by
   unfold lo
   rw [List.filter_eq_nil_iff]
@@ -91,7 +171,7 @@ theorem lo_eq_nil_of_head_ge (hc : TotalCmp cmp) {key x : K} {xs : List K}
   · exact hx
   · intro hlt; exact hx (hc.trans _ _ _ (hs.head_lt y hy) hlt)
 
-theorem ge_eq_self_of_head_ge (hc : TotalCmp cmp) {key x : K} {xs : List K}
+theorem ge_eq_self_of_head_ge (hc : WeakCmp cmp) {key x : K} {xs : List K}
     (hs : Sorted cmp (x :: xs)) (hx : ¬ cmp x key < 0) : ge cmp key (x :: xs) = x :: xs := by
   unfold ge
   rw [List.filter_eq_self]
@@ -101,7 +181,7 @@ theorem ge_eq_self_of_head_ge (hc : TotalCmp cmp) {key x : K} {xs : List K}
   · exact hx
   · intro hlt; exact hx (hc.trans _ _ _ (hs.head_lt y hy) hlt)
 
-theorem lo_append_ge (hc : TotalCmp cmp) (key : K) {l : List K} (hs : Sorted cmp l) :
+theorem lo_append_ge (hc : WeakCmp cmp) (key : K) {l : List K} (hs : Sorted cmp l) :
     lo cmp key l ++ ge cmp key l = l := by
   induction l with
   | nil => rfl
@@ -122,7 +202,7 @@ theorem mem_gt {key y : K} {l : List K} : y ∈ gt cmp key l ↔ y ∈ l ∧ cmp
   simp [gt]
 
 /-- On a sorted chain that holds `key`, the part `≥ key` starts with `key`. -/
-theorem ge_of_mem (hc : TotalCmp cmp) {key : K} {l : List K} (hs : Sorted cmp l) (hm : key ∈ l) :
+theorem ge_of_mem (hc : WeakCmp cmp) {key : K} {l : List K} (hs : Sorted cmp l) (hm : key ∈ l) :
     ge cmp key l = key :: gt cmp key l := by
   induction l with
   | nil => cases hm
@@ -145,13 +225,105 @@ theorem ge_of_mem (hc : TotalCmp cmp) {key : K} {l : List K} (hs : Sorted cmp l)
         unfold gt; rw [List.filter_cons_of_neg (by simpa using hc.asymm hlt)]
       rw [h1, h2, ih hs.tail hm']
 
-/-- On a sorted chain that does not hold `key`, `≥ key` is `> key`. -/
-theorem ge_of_not_mem (hc : TotalCmp cmp) {key : K} {l : List K} (hm : key ∉ l) :
+/-! ### equivalent keys split a chain the same way -/
+
+theorem lo_congr (hc : WeakCmp cmp) {n key : K} (h : cmp n key = 0) : lo cmp key = lo cmp n := by
+  funext l; unfold lo
+  apply List.filter_congr
+  intro y _
+  have := hc.lt_congr_right h y
+  simp only [decide_eq_decide]; exact this.symm
+
+theorem gt_congr (hc : WeakCmp cmp) {n key : K} (h : cmp n key = 0) : gt cmp key = gt cmp n := by
+  funext l; unfold gt
+  apply List.filter_congr
+  intro y _
+  have := hc.lt_congr_left h y
+  simp only [decide_eq_decide]; exact this.symm
+
+theorem ge_congr (hc : WeakCmp cmp) {n key : K} (h : cmp n key = 0) : ge cmp key = ge cmp n := by
+  funext l; unfold ge
+  apply List.filter_congr
+  intro y _
+  have := hc.lt_congr_right h y
+  simp only [Bool.not_eq_eq_eq_not, Bool.not_not, decide_eq_decide]; exact this.symm
+
+theorem pred_congr (hc : WeakCmp cmp) {n key : K} (h : cmp n key = 0) : pred cmp key = pred cmp n := by
+  funext l; unfold pred; rw [lo_congr hc h]
+
+theorem del_congr (hc : WeakCmp cmp) {n key : K} (h : cmp n key = 0) : del cmp key = del cmp n := by
+  funext l; unfold del; rw [lo_congr hc h, gt_congr hc h]
+
+/-- On a sorted chain whose node `n` is equivalent to `key`, the part `≥ key` starts with `n`. -/
+theorem ge_of_equiv (hc : WeakCmp cmp) {n key : K} {l : List K} (hs : Sorted cmp l) (hm : n ∈ l)
+    (h : cmp n key = 0) : ge cmp key l = n :: gt cmp key l := by
+  rw [ge_congr hc h, gt_congr hc h]; exact ge_of_mem hc hs hm
+
+/-- Two nodes of a sorted chain are equal or strictly ordered. -/
+theorem Sorted.lt_or_gt {l : List K} (hs : Sorted cmp l) {a b : K} (ha : a ∈ l) (hb : b ∈ l)
+    (hne : a ≠ b) : cmp a b < 0 ∨ cmp b a < 0 := by
+  induction l with
+  | nil => cases ha
+  | cons x xs ih =>
+    rcases List.mem_cons.mp ha with rfl | ha' <;> rcases List.mem_cons.mp hb with rfl | hb'
+    · exact absurd rfl hne
+    · exact Or.inl (hs.head_lt b hb')
+    · exact Or.inr (hs.head_lt a ha')
+    · exact ih hs.tail ha' hb'
+
+/-- Two nodes of a sorted chain are inequivalent. -/
+theorem Sorted.not_equiv (hc : WeakCmp cmp) {l : List K} (hs : Sorted cmp l) {a b : K} (ha : a ∈ l)
+    (hb : b ∈ l) (hne : a ≠ b) : cmp a b ≠ 0 := by
+  rcases hs.lt_or_gt ha hb hne with h | h
+  · omega
+  · have := (hc.gt_iff a b).mpr h; omega
+
+/-! ### the node equivalent to a key -/
+
+theorem findEq_some {key n : K} {l : List K} (h : findEq cmp key l = some n) : n ∈ l ∧ cmp n key = 0 := by
+  unfold findEq at h
+  exact ⟨List.mem_of_find?_eq_some h, by simpa using List.find?_some h⟩
+
+theorem findEq_none {key : K} {l : List K} : findEq cmp key l = none ↔ ∀ y ∈ l, cmp y key ≠ 0 := by
+  unfold findEq; simp
+
+theorem findEq_of_mem (hc : WeakCmp cmp) {key n : K} {l : List K} (hs : Sorted cmp l) (hn : n ∈ l)
+    (he : cmp n key = 0) : findEq cmp key l = some n := by
+  cases hf : findEq cmp key l with
+  | none => exact absurd he (findEq_none.mp hf n hn)
+  | some n' =>
+    obtain ⟨h1, h2⟩ := findEq_some hf
+    by_cases hne : n' = n
+    · rw [hne]
+    · exact absurd (hc.eq_trans h2 (hc.eq_symm he)) (hs.not_equiv hc h1 hn hne)
+
+/-- On a sub-chain the node equivalent to `key` is the same one, if it is there. -/
+theorem findEq_sublist (hc : WeakCmp cmp) {key : K} {l L : List K} (hs : Sorted cmp L) (hsub : l.Sublist L) :
+    findEq cmp key l = match findEq cmp key L with
+      | none => none
+      | some n => if n ∈ l then some n else none := by
+  cases hf : findEq cmp key L with
+  | none =>
+    simp only []
+    rw [findEq_none] at hf ⊢
+    exact fun y hy => hf y (hsub.subset hy)
+  | some n =>
+    simp only []
+    obtain ⟨h1, h2⟩ := findEq_some hf
+    by_cases hn : n ∈ l
+    · rw [if_pos hn]; exact findEq_of_mem hc (hs.sublist hsub) hn h2
+    · rw [if_neg hn, findEq_none]
+      intro y hy he
+      have hyn : y ≠ n := fun e => hn (e ▸ hy)
+      exact hs.not_equiv hc (hsub.subset hy) h1 hyn (hc.eq_trans he (hc.eq_symm h2))
+
+/-- On a sorted chain that holds no node equivalent to `key`, `≥ key` is `> key`. -/
+theorem ge_of_not_mem (hc : WeakCmp cmp) {key : K} {l : List K} (hm : ∀ y ∈ l, cmp y key ≠ 0) :
     ge cmp key l = gt cmp key l := by
   unfold ge gt
   apply List.filter_congr
   intro y hy
-  have hne : y ≠ key := fun e => hm (e ▸ hy)
+  have hne : cmp y key ≠ 0 := hm y hy
   by_cases h1 : cmp y key < 0
   · simp [h1, hc.asymm h1]
   · have := (hc.not_lt.mp h1).resolve_left hne
@@ -159,12 +331,12 @@ theorem ge_of_not_mem (hc : TotalCmp cmp) {key : K} {l : List K} (hm : key ∉ l
 
 /-! ### walking a chain -/
 
-theorem walk_spec (hc : TotalCmp cmp) (key : K) :
+theorem walk_spec (hc : WeakCmp cmp) (key : K) :
     ∀ (l : List K) (cur : Option K), Sorted cmp l →
-      walk cmp key cur l = (lastOr (lo cmp key l) cur, if key ∈ l then some key else none) := by
+      walk cmp key cur l = (lastOr (lo cmp key l) cur, findEq cmp key l) := by
   intro l
   induction l with
-  | nil => intro cur _; simp [walk, lo, lastOr]
+  | nil => intro cur _; simp [walk, lo, lastOr, findEq]
   | cons n rest ih =>
     intro cur hs
     unfold walk
@@ -173,29 +345,27 @@ theorem walk_spec (hc : TotalCmp cmp) (key : K) :
     · have hnl : ¬ cmp n key < 0 := by omega
       have hkn : cmp key n < 0 := (hc.gt_iff n key).mp h1
       rw [if_pos h1, lo_eq_nil_of_head_ge hc hs hnl]
-      have : key ∉ n :: rest := by
-        intro hm
-        rcases List.mem_cons.mp hm with rfl | hm
-        · exact hc.irrefl _ hkn
-        · exact hc.asymm hkn (hs.head_lt key hm)
+      have : findEq cmp key (n :: rest) = none := by
+        rw [findEq_none]; intro y hy
+        rcases List.mem_cons.mp hy with rfl | hy
+        · omega
+        · have h2 := hc.trans _ _ _ hkn (hs.head_lt y hy)
+          have := (hc.gt_iff y key).mpr h2; omega
       simp [this, lastOr]
     · rw [if_neg h1]
       by_cases h2 : cmp n key = 0
-      · have hnk : n = key := (hc.eq_iff n key).mp h2
-        subst hnk
-        have : (cmp n n == 0) = true := by simp [h2]
-        rw [if_pos this, lo_eq_nil_of_head_ge hc hs (hc.irrefl n)]
-        simp [lastOr]
+      · have : (cmp n key == 0) = true := by simp [h2]
+        rw [if_pos this, lo_eq_nil_of_head_ge hc hs (by omega)]
+        simp [lastOr, findEq, h2]
       · have : (cmp n key == 0) = false := by simp [h2]
         rw [this]
         simp only [Bool.false_eq_true, if_false]
         have hlt : cmp n key < 0 := by omega
         have h3 : lo cmp key (n :: rest) = n :: lo cmp key rest := by simp [lo, hlt]
         rw [ih (some n) hs.tail, h3]
-        have hne : n ≠ key := hc.ne_of_lt hlt
-        simp [lastOr, List.mem_cons, Ne.symm hne]
+        simp [lastOr, findEq, h2]
 
-theorem afterNode_spec (hc : TotalCmp cmp) {c : K} :
+theorem afterNode_spec (hc : WeakCmp cmp) {c : K} :
     ∀ {l : List K}, Sorted cmp l → c ∈ l → afterNode c l = some (gt cmp c l) := by
   intro l
   induction l with
@@ -222,7 +392,7 @@ theorem afterNode_spec (hc : TotalCmp cmp) {c : K} :
       rw [this]
       exact ih hs.tail hm'
 
-theorem lastOr_shift (hc : TotalCmp cmp) {key c : K} (hck : cmp c key < 0) :
+theorem lastOr_shift (hc : WeakCmp cmp) {key c : K} (hck : cmp c key < 0) :
     ∀ {l : List K} (d : Option K), Sorted cmp l → c ∈ l →
       lastOr (lo cmp key (gt cmp c l)) (some c) = lastOr (lo cmp key l) d := by
   intro l
@@ -255,12 +425,12 @@ theorem lastOr_shift (hc : TotalCmp cmp) {key c : K} (hck : cmp c key < 0) :
 def CurOK (cmp : K → K → Int) (key : K) (cur : Option K) (l : List K) : Prop :=
   ∀ c, cur = some c → c ∈ l ∧ cmp c key < 0
 
-/-- One level of every search loop: from a legal cursor the walk ends at `pred` and hits iff
-the chain holds `key`. -/
-theorem level_walk (hc : TotalCmp cmp) (key : K) {l : List K} {cur : Option K}
+/-- One level of every search loop: from a legal cursor the walk ends at `pred` and hits the
+node of the chain that is equivalent to `key`, if there is one. -/
+theorem level_walk (hc : WeakCmp cmp) (key : K) {l : List K} {cur : Option K}
     (hs : Sorted cmp l) (hcur : CurOK cmp key cur l) :
     ∃ rest, after cur l = some rest ∧
-      walk cmp key cur rest = (pred cmp key l, if key ∈ l then some key else none) := by
+      walk cmp key cur rest = (pred cmp key l, findEq cmp key l) := by
   cases cur with
   | none => exact ⟨l, rfl, walk_spec hc key l none hs⟩
   | some c =>
@@ -268,9 +438,16 @@ theorem level_walk (hc : TotalCmp cmp) (key : K) {l : List K} {cur : Option K}
     refine ⟨gt cmp c l, afterNode_spec hc hs hm, ?_⟩
     have hsg : Sorted cmp (gt cmp c l) := hs.filter _
     rw [walk_spec hc key _ _ hsg, lastOr_shift hc hck none hs hm]
-    have : key ∈ gt cmp c l ↔ key ∈ l := by
-      rw [mem_gt]; exact ⟨fun h => h.1, fun h => ⟨h, hck⟩⟩
-    simp only [this]
+    have : findEq cmp key (gt cmp c l) = findEq cmp key l := by
+      have hsub : (gt cmp c l).Sublist l := List.filter_sublist
+      rw [findEq_sublist hc hs hsub]
+      cases hf : findEq cmp key l with
+      | none => rfl
+      | some n =>
+        obtain ⟨h1, h2⟩ := findEq_some hf
+        have : n ∈ gt cmp c l := mem_gt.mpr ⟨h1, (hc.lt_congr_right h2 c).mpr hck⟩
+        simp [this]
+    rw [this]
     rfl
 
 theorem lastOr_append_singleton (A : List K) (p : K) (d : Option K) : lastOr (A ++ [p]) d = some p := by
@@ -323,7 +500,7 @@ theorem afterNode_append (hA : ∀ a ∈ A, a ≠ p) (B : List K) :
     simp only [List.cons_append, afterNode, if_neg this]
     exact ih (fun x hx => hA x (by simp [hx]))
 
-theorem upto_after_pred (hc : TotalCmp cmp) (key : K) {l : List K} (hs : Sorted cmp l) :
+theorem upto_after_pred (hc : WeakCmp cmp) (key : K) {l : List K} (hs : Sorted cmp l) :
     upto (pred cmp key l) l = some (lo cmp key l) ∧ after (pred cmp key l) l = some (ge cmp key l) := by
   have hsplit := lo_append_ge hc key hs
   cases hp : pred cmp key l with
@@ -350,26 +527,26 @@ theorem upto_after_pred (hc : TotalCmp cmp) (key : K) {l : List K} (hs : Sorted 
       conv => lhs; rw [hl]
       exact afterNode_append hne _
 
-theorem spliceAt_pred (hc : TotalCmp cmp) (key : K) {l : List K} (hs : Sorted cmp l) :
+theorem spliceAt_pred (hc : WeakCmp cmp) (key : K) {l : List K} (hs : Sorted cmp l) :
     spliceAt (pred cmp key l) key l = some (ins cmp key l) := by
   obtain ⟨h1, h2⟩ := upto_after_pred hc key hs
   simp [spliceAt, h1, h2, ins]
 
-theorem unspliceAt_pred (hc : TotalCmp cmp) (key : K) {l : List K} (hs : Sorted cmp l) (hm : key ∈ l) :
+theorem unspliceAt_pred (hc : WeakCmp cmp) (key : K) {l : List K} (hs : Sorted cmp l) (hm : key ∈ l) :
     unspliceAt (pred cmp key l) key l = some (del cmp key l) := by
   obtain ⟨h1, _⟩ := upto_after_pred hc key hs
   simp [unspliceAt, h1, afterNode_spec hc hs hm, del]
 
 /-! ### properties of `ins` / `del` -/
 
-theorem mem_ins (hc : TotalCmp cmp) {key y : K} {l : List K} (hs : Sorted cmp l) :
+theorem mem_ins (hc : WeakCmp cmp) {key y : K} {l : List K} (hs : Sorted cmp l) :
     y ∈ ins cmp key l ↔ y = key ∨ y ∈ l := by
   unfold ins
   rw [List.mem_append, List.mem_cons]
   conv => rhs; rw [← lo_append_ge hc key hs, List.mem_append]
   grind
 
-theorem mem_del (hc : TotalCmp cmp) {key y : K} {l : List K} :
+theorem mem_del (hc : WeakCmp cmp) {key y : K} {l : List K} (hs : Sorted cmp l) (hk : key ∈ l) :
     y ∈ del cmp key l ↔ y ≠ key ∧ y ∈ l := by
   unfold del
   rw [List.mem_append, mem_lo, mem_gt]
@@ -378,12 +555,12 @@ theorem mem_del (hc : TotalCmp cmp) {key y : K} {l : List K} :
     · exact ⟨hc.ne_of_lt h2, h1⟩
     · exact ⟨(hc.ne_of_lt h2).symm, h1⟩
   · rintro ⟨hne, hm⟩
-    rcases hc.tri y key with h | h | h
+    rcases hs.lt_or_gt hm hk hne with h | h
     · exact Or.inl ⟨hm, h⟩
-    · exact absurd h hne
     · exact Or.inr ⟨hm, h⟩
 
-theorem ins_sorted (hc : TotalCmp cmp) {key : K} {l : List K} (hs : Sorted cmp l) (hm : key ∉ l) :
+theorem ins_sorted (hc : WeakCmp cmp) {key : K} {l : List K} (hs : Sorted cmp l)
+    (hm : ∀ y ∈ l, cmp y key ≠ 0) :
     Sorted cmp (ins cmp key l) := by
   unfold ins Sorted
   rw [List.pairwise_append]
@@ -392,35 +569,37 @@ theorem ins_sorted (hc : TotalCmp cmp) {key : K} {l : List K} (hs : Sorted cmp l
     refine ⟨?_, hs.filter _⟩
     intro y hy
     obtain ⟨hyl, hyk⟩ := mem_ge.mp hy
-    have hne : y ≠ key := fun e => hm (e ▸ hyl)
-    exact (hc.not_lt.mp hyk).resolve_left hne
+    exact (hc.not_lt.mp hyk).resolve_left (hm y hyl)
   · intro a ha b hb
     obtain ⟨_, hak⟩ := mem_lo.mp ha
     rcases List.mem_cons.mp hb with rfl | hb
     · exact hak
     · obtain ⟨hbl, hbk⟩ := mem_ge.mp hb
-      have hne : b ≠ key := fun e => hm (e ▸ hbl)
-      exact hc.trans _ _ _ hak ((hc.not_lt.mp hbk).resolve_left hne)
+      exact hc.trans _ _ _ hak ((hc.not_lt.mp hbk).resolve_left (hm b hbl))
 
-theorem del_sublist (hc : TotalCmp cmp) {key : K} {l : List K} (hs : Sorted cmp l) :
+theorem del_sublist (hc : WeakCmp cmp) {key : K} {l : List K} (hs : Sorted cmp l) :
     (del cmp key l).Sublist l := by
-  by_cases hm : key ∈ l
-  · have h := lo_append_ge hc key hs
-    rw [ge_of_mem hc hs hm] at h
-    unfold del
-    conv => rhs; rw [← h]
-    exact List.Sublist.append (List.Sublist.refl _) (List.sublist_cons_self _ _)
-  · have h := lo_append_ge hc key hs
-    rw [ge_of_not_mem hc hm] at h
-    unfold del; rw [h]; exact List.Sublist.refl _
+  have h := lo_append_ge hc key hs
+  have hgt : gt cmp key l = (ge cmp key l).filter (fun x => decide (cmp key x < 0)) := by
+    unfold gt
+    conv => lhs; rw [← h, List.filter_append]
+    have : (lo cmp key l).filter (fun x => decide (cmp key x < 0)) = [] := by
+      rw [List.filter_eq_nil_iff]
+      intro y hy
+      simpa using hc.asymm (mem_lo.mp hy).2
+    rw [this, List.nil_append]
+  unfold del
+  rw [hgt]
+  conv => rhs; rw [← h]
+  exact List.Sublist.append (List.Sublist.refl _) List.filter_sublist
 
-theorem del_of_not_mem (hc : TotalCmp cmp) {key : K} {l : List K} (hs : Sorted cmp l) (hm : key ∉ l) :
-    del cmp key l = l := by
+theorem del_of_not_mem (hc : WeakCmp cmp) {key : K} {l : List K} (hs : Sorted cmp l)
+    (hm : ∀ y ∈ l, cmp y key ≠ 0) : del cmp key l = l := by
   have h := lo_append_ge hc key hs
   rw [ge_of_not_mem hc hm] at h
   exact h
 
-theorem sublist_ins (hc : TotalCmp cmp) {key : K} {l : List K} (hs : Sorted cmp l) :
+theorem sublist_ins (hc : WeakCmp cmp) {key : K} {l : List K} (hs : Sorted cmp l) :
     l.Sublist (ins cmp key l) := by
   unfold ins
   conv => lhs; rw [← lo_append_ge hc key hs]
